@@ -97,7 +97,7 @@ func runBoundary(ctx *vf.Ctx, ex *exclusionSet) int {
 		ctx.Class("boundary-pos:" + boundaryPos(c))
 		mode, res, v, ds := checkCase(c, skipProg, skipEval)
 		for _, d := range ds {
-			if strings.Contains(d, "go rejects, yaegi") || strings.Contains(d, "implementation limit") {
+			if strings.Contains(d, "go rejects, yaegi") || strings.Contains(d, "implementation limit") || d == "large-array" {
 				ctx.Class("undecided:" + d)
 				continue
 			}
